@@ -16,18 +16,18 @@ BACKENDS = (
 SPEC, WD, PROJ, NAME = tok("SPEC"), tok("WD"), tok("PROJ"), "NAME.v1"
 
 
-def make_target(ctx, options, spec=None):
+def make_target(ctx, options, spec=None, wd=None):
     from .evalhelpers import target_obj
-    return target_obj(ctx, name=NAME, spec=SPEC if spec is None else spec, working_dir=WD, options=dict(options), inputs=[], outputs=[])
+    return target_obj(ctx, name=NAME, spec=SPEC if spec is None else spec, working_dir=WD if wd is None else wd, options=dict(options), inputs=[], outputs=[])
 
 
-def compile_script(ctx, mod, cname, options, log_mode="full", spec=None):
+def compile_script(ctx, mod, cname, options, log_mode="full", spec=None, wd=None):
     idx = ctx.index
     ci = idx.cls(f"{mod}:{cname}")
     fn = idx.method(ci, "compile_script")
     interp = PureInterp(ctx)
     self_obj = Obj("ops", working_dir=PROJ, log_mode=log_mode, accounting_enabled=True, **{"__class__": ci})
-    script = interp.call(fn, (make_target(ctx, options, spec),), {}, self_obj=self_obj)
+    script = interp.call(fn, (make_target(ctx, options, spec, wd),), {}, self_obj=self_obj)
     if not isinstance(script, str):
         raise Unsupported(f"compile_script returned {type(script).__name__}")
     return fn, script
@@ -84,6 +84,27 @@ def rule_assembly(ctx, r):
                     "leading whitespace is significant in here-documents and quoted strings, the job no longer runs the spec verbatim", where)
         except (Raised, Unsupported) as exc:
             r.info(con + "::spec-whitespace", f"not evaluated ({exc})")
+        # ... and for the usual target, whose working directory IS the project directory: the scheduler starts a job in the directory `gwf run` was invoked from
+        # (a subdirectory, or anywhere with -f), which is not the project directory
+        try:
+            _fn, script3 = compile_script(ctx, mod, cname, opts, wd=PROJ)
+            r.check(f"cd {tok('quote:' + PROJ)}" in script3.split("\n"), con + "::cd-project-dir", "a target whose working directory is the project directory gets its cd as well",
+                    "for a target whose working directory equals the project directory the script has no `cd`: the job starts wherever the scheduler puts it - the directory "
+                    "gwf was invoked from (-cwd / sbatch default), e.g. a subdirectory of the project - and the spec's relative paths resolve there", where)
+        except (Raised, Unsupported) as exc:
+            r.info(con + "::cd-project-dir", f"not evaluated ({exc})")
+    # the script travels to the scheduler through the standard input of sbatch/qsub/bsub: what arrives there must be the script, byte for byte in the user's encoding
+    from .evalhelpers import eval_call_stdin, STDIN_SCRIPT
+    out_s, call_f = eval_call_stdin(ctx)
+    con_s = f"{call_f.module.relpath}::{call_f.qual}::stdin-codec"
+    if out_s[0] == "unsupported":
+        r.info(con_s, f"not evaluated ({out_s[1]})")
+    elif out_s[0] == "raised":
+        r.violation(con_s, f"handing a script with non-ASCII text (a directory `søren`, a pattern `Ærø µ`) to the submit command raises {out_s[1]}: such a target cannot be submitted", call_f.where)
+    else:
+        r.check(out_s[1] == STDIN_SCRIPT.encode("utf-8"), con_s, "a script with non-ASCII text reaches the submit command's stdin unchanged",
+                f"a script with non-ASCII text does not reach the submit command's standard input verbatim: the scheduler receives {out_s[1].decode('utf-8', 'replace')[:90]!r} "
+                f"instead of {STDIN_SCRIPT[:90]!r} (a lossy codec on the pipe): the job runs a different spec, in a different directory", call_f.where)
     # ensure_trailing_newline keeps text verbatim
     interp = PureInterp(ctx)
     etn = idx.func("gwf.utils:ensure_trailing_newline")
